@@ -95,7 +95,7 @@ def boundary_cell(w, P, a, s):
 
 
 class _BCOb(Ob):
-    props = ('C03',)
+    props = ('C03', 'C02')
     pattern = 'n'
 
     def parts(self, w):
@@ -145,7 +145,7 @@ class BCRows(_BCOb):
     Robin relation) for an arbitrary field (hence no other column), resp. the two periodic relations; rows of
     interior cells are empty"""
     name = 'boundaryConditionsTerm/rows_encode_relation'
-    props = ('C03', 'C04')
+    props = ('C03', 'C04', 'C02', 'C07')
 
     def setup(self, w):
         BC, coefs = make_bc(w, self.pattern)
